@@ -112,7 +112,8 @@ def main():
     acc = 0
     findings = []
     stats = {}
-    all_jobs = [(i, v, outdir) for i, v in enumerate(jobs)]
+    first = int(sys.argv[4]) if len(sys.argv) > 4 else 0
+    all_jobs = [(i, v, outdir) for i, v in enumerate(jobs)][first:]
     with cf.ThreadPoolExecutor(max_workers=14) as ex:
         for b in range(0, len(all_jobs), 280):
             for r in ex.map(work, all_jobs[b:b + 280]):
